@@ -304,7 +304,7 @@ def check_timers(ctx, m):
         ok = assigned == [sp["timer"]] and started
         ctx.ob("C07.P4", eh.qualname, ok, "the timer is stored and started" if ok else "the timer is not stored in its field and started", key="started", where=eh.where)
         cbm = cls.methods.get((cb or "").split(".")[-1])
-        performed = [c.args[0].value for c in calls_in(cbm.node) if call_name(c) == "self._perform_transition" and c.args and isinstance(c.args[0], ast.Constant)] if cbm else []
+        performed = [rules.literal(cbm.node, c.args[0])[1] for c in calls_in(cbm.node) if call_name(c) == "self._perform_transition" and c.args] if cbm else []
         ok = performed == [sp["transition"]]
         ctx.ob("C07.P4", eh.qualname, ok, f"the timer's callback performs exactly {sp['transition']}" if ok else f"the timer's callback performs {performed}, expected [{sp['transition']}]", key="callback", where=eh.where)
         names = [call_name(c) or "" for c in calls_in(lh.node)]
